@@ -33,6 +33,90 @@ Definition increment_crash_counter (t : task) : task * bool :=
        | CUnl => false
        end).
 
+(** The pieces of [on_remove_worker]. *)
+
+(** The lost worker's prefilled tasks: new instance id, Waiting, moved back to the ready queue. *)
+Fixpoint lost_prefilled (c : core) (l : list tid) : res core :=
+  match l with
+  | [] => Ok c
+  | id :: l' =>
+      do t <- get_task (c_tasks c) id;
+      let t' := with_state (with_inst t (t_inst t + 1)) (Waiting 0) in
+      do q <- nth_queue (c_queues c) (N.to_nat (t_rq t));
+      do q' <- q_move_prefilled_to_ready q id;
+      lost_prefilled (with_queues (upd_task c t') (set_queue (c_queues c) (N.to_nat (t_rq t)) q')) l'
+  end.
+
+(** The lost worker's assigned tasks: running ones are remembered, redirects towards the lost
+    worker are dropped, everything is re-queued with a new instance id. *)
+Fixpoint lost_assigned (c : core) (l : list tid) (running retracted : list tid) : res (core * list tid * list tid) :=
+  match l with
+  | [] => Ok (c, running, retracted)
+  | id :: l' =>
+      do t <- get_task (c_tasks c) id;
+      do (r1 : core * task * list tid) <-
+        match t_state t with
+        | Running _ _ => Ok (c, with_state t (Waiting 0), running ++ [id])
+        | Retracting _ =>
+            match find_redirect (c_redirects c) id with
+            | Some _ => Ok (with_redirects c (del_redirect (c_redirects c) id), t, running)
+            | None => Panic 185      (* assert!(redirects.remove(task_id).is_some()) *)
+            end
+        | _ => Ok (c, with_state t (Waiting 0), running)
+        end;
+      let '(c1, t1, running1) := r1 in
+      let t2 := with_inst t1 (t_inst t1 + 1) in
+      let c2 := upd_task c1 t2 in
+      do (qs, ret) <- add_ready_task (c_queues c2) t2;
+      lost_assigned (with_queues c2 qs) l' running1 (retracted ++ ret)
+  end.
+
+(** Every task still being retracted from the lost worker (iteration over the whole task map). *)
+Fixpoint lost_retracting (s : st) (w : wid) (l : list tid) : res st :=
+  match l with
+  | [] => Ok s
+  | id :: l' =>
+      do t <- get_task (c_tasks (core_of s)) id;
+      match t_state t with
+      | Retracting w1 =>
+          if N.eqb w w1 then
+            let c := core_of s in
+            (* after the fix: a new instance id, the lost worker may have started it *)
+            let t := with_inst t (t_inst t + 1) in
+            match find_redirect (c_redirects c) id with
+            | Some (target, rv) =>
+                let t' := with_state t (Assigned target rv) in
+                let c' := upd_task (with_redirects c (del_redirect (c_redirects c) id)) t' in
+                do s' <- send_worker (st_core s c') target (DCompute [ctask_of t' (Some rv) []]);
+                lost_retracting s' w l'
+            | None => lost_retracting (st_core s (upd_task c (with_state t (Waiting 0)))) w l'
+            end
+          else lost_retracting s w l'
+      | _ => lost_retracting s w l'
+      end
+  end.
+
+(** Crash-limit handling of the tasks that were running on the lost worker. *)
+Fixpoint lost_fail_running (s : st) (reason : N) (l : list tid) : res st :=
+  match l with
+  | [] => Ok s
+  | id :: l' =>
+      match find_task (c_tasks (core_of s)) id with
+      | None => lost_fail_running s reason l'
+      | Some t =>
+          match t_climit t with
+          | CNever => do s' <- task_failed s None id FNeverRestart; lost_fail_running s' reason l'
+          | _ =>
+              if reason_is_failure reason then
+                let '(t', limit) := increment_crash_counter t in
+                let s1 := st_core s (upd_task (core_of s) t') in
+                if limit then do s' <- task_failed s1 None id FCrashLimit; lost_fail_running s' reason l'
+                else lost_fail_running s1 reason l'
+              else lost_fail_running s reason l'
+          end
+      end
+  end.
+
 (** [on_remove_worker]; [a_order] / [p_order] = hash-iteration order of the lost worker's assigned
     and prefilled sets, [t_order] = iteration order of the task map (all three are witnesses). *)
 Definition on_remove_worker (s : st) (w : wid) (reason : N) (a_order p_order t_order : list tid) : res st :=
@@ -48,37 +132,8 @@ Definition on_remove_worker (s : st) (w : wid) (reason : N) (a_order p_order t_o
         | Sn a p _ =>
             if negb (perm_of_set a_order a && perm_of_set p_order p) then Disabled
             else
-              do c1 <- (fix go (c : core) (l : list tid) : res core :=
-                          match l with
-                          | [] => Ok c
-                          | id :: l' =>
-                              do t <- get_task (c_tasks c) id;
-                              let t' := with_state (with_inst t (t_inst t + 1)) (Waiting 0) in
-                              do q <- nth_queue (c_queues c) (N.to_nat (t_rq t));
-                              do q' <- q_move_prefilled_to_ready q id;
-                              go (with_queues (upd_task c t') (set_queue (c_queues c) (N.to_nat (t_rq t)) q')) l'
-                          end) c0 p_order;
-              (fix go (c : core) (l : list tid) (running retracted : list tid) : res (core * list tid * list tid) :=
-                 match l with
-                 | [] => Ok (c, running, retracted)
-                 | id :: l' =>
-                     do t <- get_task (c_tasks c) id;
-                     do (r1 : core * task * list tid) <-
-                       match t_state t with
-                       | Running _ _ => Ok (c, with_state t (Waiting 0), running ++ [id])
-                       | Retracting _ =>
-                           match find_redirect (c_redirects c) id with
-                           | Some _ => Ok (with_redirects c (del_redirect (c_redirects c) id), t, running)
-                           | None => Panic 185      (* assert!(redirects.remove(task_id).is_some()) *)
-                           end
-                       | _ => Ok (c, with_state t (Waiting 0), running)
-                       end;
-                     let '(c1, t1, running1) := r1 in
-                     let t2 := with_inst t1 (t_inst t1 + 1) in
-                     let c2 := upd_task c1 t2 in
-                     do (qs, ret) <- add_ready_task (c_queues c2) t2;
-                     go (with_queues c2 qs) l' running1 (retracted ++ ret)
-                 end) c1 a_order [] []
+              do c1 <- lost_prefilled c0 p_order;
+              lost_assigned c1 a_order [] []
         | Mn mt root =>
             do t <- get_task (c_tasks c0) mt;
             match t_state t with
@@ -86,11 +141,7 @@ Definition on_remove_worker (s : st) (w : wid) (reason : N) (a_order p_order t_o
                 match ws with
                 | w0 :: rest =>
                     if N.eqb w w0 then
-                      do c1 <- (fix go (c : core) (l : list wid) : res core :=
-                                  match l with
-                                  | [] => Ok c
-                                  | x :: l' => do wx <- get_worker (c_workers c) x; go (upd_worker c (reset_mn_task wx)) l'
-                                  end) c0 rest;
+                      do c1 <- reset_mn_all c0 rest;
                       let t2 := with_inst (with_state t (Waiting 0)) (t_inst t + 1) in
                       let c2 := upd_task c1 t2 in
                       do (qs, ret) <- add_ready_task (c_queues c2) t2;
@@ -103,54 +154,13 @@ Definition on_remove_worker (s : st) (w : wid) (reason : N) (a_order p_order t_o
             end
         end;
       let '(c2, running, retracted) := r in
-      (* every task still being retracted from the lost worker *)
       if negb (perm_of_set t_order (map t_id (c_tasks c2))) then Disabled
       else
-      do s3 <- (fix go (s : st) (l : list tid) : res st :=
-                  match l with
-                  | [] => Ok s
-                  | id :: l' =>
-                      do t <- get_task (c_tasks (core_of s)) id;
-                      match t_state t with
-                      | Retracting w1 =>
-                          if N.eqb w w1 then
-                            let c := core_of s in
-                            (* after the fix: a new instance id, the lost worker may have started it *)
-                            let t := with_inst t (t_inst t + 1) in
-                            match find_redirect (c_redirects c) id with
-                            | Some (target, rv) =>
-                                let t' := with_state t (Assigned target rv) in
-                                let c' := upd_task (with_redirects c (del_redirect (c_redirects c) id)) t' in
-                                do s' <- send_worker (st_core s c') target (DCompute [ctask_of t' (Some rv) []]);
-                                go s' l'
-                            | None => go (st_core s (upd_task c (with_state t (Waiting 0)))) l'
-                            end
-                          else go s l'
-                      | _ => go s l'
-                      end
-                  end) (st_core s0 c2) t_order;
+      do s3 <- lost_retracting (st_core s0 c2) w t_order;
       do s4 <- process_retracted s3 retracted;
       let s5 := broadcast s4 (DLostWorker w) in
       do s6 <- process_worker_lost s5 w running reason;
-      do s7 <- (fix go (s : st) (l : list tid) : res st :=
-                  match l with
-                  | [] => Ok s
-                  | id :: l' =>
-                      match find_task (c_tasks (core_of s)) id with
-                      | None => go s l'
-                      | Some t =>
-                          match t_climit t with
-                          | CNever => do s' <- task_failed s None id FNeverRestart; go s' l'
-                          | _ =>
-                              if reason_is_failure reason then
-                                let '(t', limit) := increment_crash_counter t in
-                                let s1 := st_core s (upd_task (core_of s) t') in
-                                if limit then do s' <- task_failed s1 None id FCrashLimit; go s' l'
-                                else go s1 l'
-                              else go s l'
-                          end
-                      end
-                  end) s6 running;
+      do s7 <- lost_fail_running s6 reason running;
       Ok (ask_scheduling s7)
   end.
 
@@ -305,39 +315,66 @@ Fixpoint insert_by_prio (c : core) (x : tid * N) (l : list (tid * N)) : list (ti
 Definition sort_assigned (c : core) (l : list (tid * N)) : list (tid * N) :=
   fold_left (fun acc x => insert_by_prio c x acc) l [].
 
+Fixpoint set_mn_workers (c : core) (id : tid) (l : list wid) (first : bool) : res core :=
+  match l with
+  | [] => Ok c
+  | w :: l' =>
+      do wk <- get_worker (c_workers c) w;
+      do wk' <- set_mn_task wk id first;
+      set_mn_workers (upd_worker c wk') id l' false
+  end.
+
+Fixpoint map_mn_sets (c : core) (rq : N) (mn : list tid) (sets : list (list wid)) : res (core * list tid) :=
+  match sets with
+  | [] => Ok (c, mn)
+  | ws :: rest =>
+      do q <- nth_queue (c_queues c) (N.to_nat rq);
+      match q_take_one q with
+      | None => Panic 182
+      | Some (id, q') =>
+          let c1 := with_queues c (set_queue (c_queues c) (N.to_nat rq) q') in
+          do c2 <- set_mn_workers c1 id ws true;
+          do t <- get_task (c_tasks c2) id;
+          match t_state t with
+          | Waiting 0 => map_mn_sets (upd_task c2 (with_state t (RunningMN ws))) rq (mn ++ [id]) rest
+          | _ => Panic 183
+          end
+      end
+  end.
+
 Fixpoint map_mn (c : core) (mn : list tid) (l : list (N * N * list (list wid))) : res (core * list tid) :=
   match l with
   | [] => Ok (c, mn)
   | (rq, _, sets) :: r =>
-      do (c', mn') <-
-        (fix go (c : core) (mn : list tid) (sets : list (list wid)) : res (core * list tid) :=
-           match sets with
-           | [] => Ok (c, mn)
-           | ws :: rest =>
-               do q <- nth_queue (c_queues c) (N.to_nat rq);
-               match q_take_one q with
-               | None => Panic 182
-               | Some (id, q') =>
-                   let c1 := with_queues c (set_queue (c_queues c) (N.to_nat rq) q') in
-                   do c2 <- (fix setw (c : core) (l : list wid) (first : bool) : res core :=
-                               match l with
-                               | [] => Ok c
-                               | w :: l' =>
-                                   do wk <- get_worker (c_workers c) w;
-                                   do wk' <- set_mn_task wk id first;
-                                   setw (upd_worker c wk') l' false
-                               end) c1 ws true;
-                   do t <- get_task (c_tasks c2) id;
-                   match t_state t with
-                   | Waiting 0 => go (upd_task c2 (with_state t (RunningMN ws))) (mn ++ [id]) rest
-                   | _ => Panic 183
-                   end
-               end
-           end) c mn sets;
+      do (c', mn') <- map_mn_sets c rq mn sets;
       map_mn c' mn' r
   end.
 
 (** [process_proactive_filling] *)
+Fixpoint prefill_mark (c : core) (w : wid) (l : list tid) : res core :=
+  match l with
+  | [] => Ok c
+  | id :: l' =>
+      do t <- get_task (c_tasks c) id;
+      if negb (is_waiting t) then Panic 184
+      else
+        do wk <- get_worker (c_workers c) w;
+        do wk' <- insert_prefill_task wk id;
+        prefill_mark (upd_worker (upd_task c (with_state t (Prefilled w))) wk') w l'
+  end.
+
+Fixpoint prefill_workers (c : core) (m : list wupd) (qi : nat) (psize : N) (ws : list wid) : res (core * list wupd) :=
+  match ws with
+  | [] => Ok (c, m)
+  | w :: rest =>
+      do q <- nth_queue (c_queues c) qi;
+      do (ids, q') <- q_take_tasks_for_prefill q psize;
+      let c1 := with_queues c (set_queue (c_queues c) qi q') in
+      do c2 <- prefill_mark c1 w ids;
+      let u := wu_get m w in
+      prefill_workers c2 (wu_set m (mkWU w (wu_assigned u) (wu_prefills u ++ ids) (wu_retracts u))) qi psize rest
+  end.
+
 Fixpoint prefill_queues (c : core) (m : list wupd) (worder : list wid) (qi : nat) (n : nat) (top : Z) : res (core * list wupd) :=
   match n with
   | O => Ok (c, m)
@@ -376,51 +413,41 @@ Fixpoint prefill_queues (c : core) (m : list wupd) (worder : list wid) (qi : nat
                   let psize := N.min (size / N.of_nat (length ws)) (c_maxfill c) in
                   if N.eqb psize 0 then skip
                   else
-                    do (c', m') <-
-                      (fix go (c : core) (m : list wupd) (ws : list wid) : res (core * list wupd) :=
-                         match ws with
-                         | [] => Ok (c, m)
-                         | w :: rest =>
-                             do q <- nth_queue (c_queues c) qi;
-                             do (ids, q') <- q_take_tasks_for_prefill q psize;
-                             let c1 := with_queues c (set_queue (c_queues c) qi q') in
-                             do c2 <- (fix mark (c : core) (l : list tid) : res core :=
-                                         match l with
-                                         | [] => Ok c
-                                         | id :: l' =>
-                                             do t <- get_task (c_tasks c) id;
-                                             if negb (is_waiting t) then Panic 184
-                                             else
-                                               do wk <- get_worker (c_workers c) w;
-                                               do wk' <- insert_prefill_task wk id;
-                                               mark (upd_worker (upd_task c (with_state t (Prefilled w))) wk') l'
-                                         end) c1 ids;
-                             let u := wu_get m w in
-                             go c2 (wu_set m (mkWU w (wu_assigned u) (wu_prefills u ++ ids) (wu_retracts u))) rest
-                         end) c m ws;
+                    do (c', m') <- prefill_workers c m qi psize ws;
                     prefill_queues c' m' worder (S qi) k top
               end
       end
   end.
 
 (** [WorkerTaskMapping::send_messages] *)
+Fixpoint ctasks_prefill (c : core) (l : list tid) : res (list ctask) :=
+  match l with
+  | [] => Ok []
+  | id :: l' => do t <- get_task (c_tasks c) id; do rest <- ctasks_prefill c l'; Ok (ctask_of t None [] :: rest)
+  end.
+
 Fixpoint send_mapping (s : st) (m : list wupd) : res st :=
   match m with
   | [] => Ok s
   | u :: r =>
       do s1 <- (match wu_retracts u with [] => Ok s | ids => send_worker s (wu_w u) (DRetract ids) end);
-      do cts1 <- (fix mk (l : list tid) : res (list ctask) :=
-                    match l with
-                    | [] => Ok []
-                    | id :: l' => do t <- get_task (c_tasks (core_of s1)) id; do rest <- mk l'; Ok (ctask_of t None [] :: rest)
-                    end) (wu_prefills u);
-      do cts2 <- (fix mk (l : list (tid * N)) : res (list ctask) :=
-                    match l with
-                    | [] => Ok []
-                    | (id, v) :: l' => do t <- get_task (c_tasks (core_of s1)) id; do rest <- mk l'; Ok (ctask_of t (Some v) [] :: rest)
-                    end) (wu_assigned u);
+      do cts1 <- ctasks_prefill (core_of s1) (wu_prefills u);
+      do cts2 <- ctasks_of (core_of s1) (wu_assigned u);
       do s2 <- (match cts1 ++ cts2 with [] => Ok s1 | cts => send_worker s1 (wu_w u) (DCompute cts) end);
       send_mapping s2 r
+  end.
+
+Fixpoint send_mn (s : st) (l : list tid) : res st :=
+  match l with
+  | [] => Ok s
+  | id :: l' =>
+      do t <- get_task (c_tasks (core_of s)) id;
+      match t_state t with
+      | RunningMN (w0 :: ws) =>
+          do s' <- send_worker s w0 (DCompute [ctask_of t (Some 0) (w0 :: ws)]);
+          send_mn s' l'
+      | _ => Panic 166
+      end
   end.
 
 Definition run_scheduling (s : st) (sol : solution) : res st :=
@@ -436,18 +463,7 @@ Definition run_scheduling (s : st) (sol : solution) : res st :=
     | Some top => prefill_queues c2 m2 (sol_workers sol) 0 (length (c_queues c2)) top
     end;
   do s1 <- send_mapping (st_core s c3) m3;
-  do s2 <- (fix go (s : st) (l : list tid) : res st :=
-              match l with
-              | [] => Ok s
-              | id :: l' =>
-                  do t <- get_task (c_tasks (core_of s)) id;
-                  match t_state t with
-                  | RunningMN (w0 :: ws) =>
-                      do s' <- send_worker s w0 (DCompute [ctask_of t (Some 0) (w0 :: ws)]);
-                      go s' l'
-                  | _ => Panic 166
-                  end
-              end) s1 mn;
+  do s2 <- send_mn s1 mn;
   Ok (st_core s2 (with_flag (core_of s2) false)).
 
 (** * Client requests *)
@@ -588,23 +604,32 @@ Fixpoint validate_graph (job_tasks : list (N * jstate)) (seen : list N) (ts : li
 Fixpoint dedup_sorted (l : list N) (acc : list tid) (j : N) : list tid :=
   match l with [] => acc | h :: t => dedup_sorted t (tid_insert (j, h) acc) j end.
 
+Fixpoint graph_ids_fresh (j : job) (n_rqs : nat) (l : list gtask) : res (option resp) :=
+  match l with
+  | [] => Ok None
+  | g :: r =>
+      match jt_find (j_tasks j) (gt_id g) with
+      | Some _ => Ok (Some (RSubmitErr 2 (gt_id g)))
+      | None => if N.ltb (gt_rq g) (N.of_nat n_rqs) then graph_ids_fresh j n_rqs r else Panic 223
+      end
+  end.
+
+Fixpoint graph_tasks (jid : N) (rqis : list N) (l : list gtask) : res (list task) :=
+  match l with
+  | [] => Ok []
+  | g :: r =>
+      match nth_error rqis (N.to_nat (gt_rq g)) with
+      | None => Panic 224      (* resources[task.resource_rq_id] *)
+      | Some rqi =>
+          do rest <- graph_tasks jid rqis r;
+          Ok (fresh_task (jid, gt_id g) (dedup_sorted (gt_deps g) [] jid) rqi (gt_prio g) (gt_cl g) false :: rest)
+      end
+  end.
+
 Definition handle_submit_graph (s : st) (jobsel : option N) (rqs : list rqdef) (ts : list gtask) (maxfails : option N) : res st :=
   let existing := match jobsel with Some j => find_job (hq_jobs s) j | None => None end in
   let job_tasks := match existing with Some j => j_tasks j | None => [] end in
-  do v1 <-
-    match existing with
-    | Some j =>
-        (fix chk (l : list gtask) : res (option resp) :=
-           match l with
-           | [] => Ok None
-           | g :: r =>
-               match jt_find (j_tasks j) (gt_id g) with
-               | Some _ => Ok (Some (RSubmitErr 2 (gt_id g)))
-               | None => if N.ltb (gt_rq g) (N.of_nat (length rqs)) then chk r else Panic 223
-               end
-           end) ts
-    | None => Ok None
-    end;
+  do v1 <- match existing with Some j => graph_ids_fresh j (length rqs) ts | None => Ok None end;
   match (match v1 with Some e => Some e | None => validate_graph job_tasks [] ts end) with
   | Some e => Ok (emit s (OResp e))
   | None =>
@@ -626,17 +651,7 @@ Definition handle_submit_graph (s : st) (jobsel : option N) (rqs : list rqdef) (
           do j <- hq_get_job s4 jid 222;
           do j' <- attach_ids j (map gt_id ts);
           let s5 := hq_set_job s4 j' in
-          do tasks <- (fix mk (l : list gtask) : res (list task) :=
-                         match l with
-                         | [] => Ok []
-                         | g :: r =>
-                             match nth_error rqis (N.to_nat (gt_rq g)) with
-                             | None => Panic 224      (* resources[task.resource_rq_id] *)
-                             | Some rqi =>
-                                 do rest <- mk r;
-                                 Ok (fresh_task (jid, gt_id g) (dedup_sorted (gt_deps g) [] jid) rqi (gt_prio g) (gt_cl g) false :: rest)
-                             end
-                         end) ts;
+          do tasks <- graph_tasks jid rqis ts;
           do s6 <- on_new_tasks s5 tasks;
           submit_ok_resp s6 jid
       end
